@@ -588,8 +588,8 @@ def load_mutants(w, tier, rng, corpus=False):
     m = fresh()
     m['gvars'][gl[0]] = [gl[-1]]
     m['gvars'][gl[-1]] = [gl[0]]
-    all_shadow = all(gl[0] in c['vars'] and gl[-1] in c['vars'] for c in m['comps'])
-    out.append(('CyclicVars', not all_shadow, [], finalize(m)))
+    # global variables are resolved on their own at initialisation: shadowing does not help
+    out.append(('CyclicVars', True, [], finalize(m)))
     return out
 
 
